@@ -83,6 +83,10 @@ def handle : List String → Verdict
         else if slowOKS != "1" then some s!"a client whose connection was backed up for 3.6 s received {slowGotS} of {n} events: deliveries pending meanwhile were dropped"
         else none,
       nontrivial := true, tags := ["slow-reader"], sig := "slow" }
+  | ["burst", sentS, gotS] =>
+    { predfail := if (gotS.splitOn ",").all (· == sentS) then none else
+        some s!"{sentS} identical reload events were broadcast to connected, promptly reading clients; they received {gotS}",
+      nontrivial := true, tags := ["burst"], sig := "burst" }
   | ["stress", statusH, sentS, missingS] =>
     match hexField statusH with
     | some status =>
